@@ -143,6 +143,16 @@ def prog_event(tid, o, i, fl, placement):
             nomodel = True
             # no explicit declaration is equivalent (one callee is not known / one forwards() raises): the plain signature is what remains
             declared, agree = {'tag': 'valueerror'}, 'ps'
+        elif base in ('auto_loop_taint_after', 'auto_compr_shadow'):
+            fl = dict(fl, partial=False)
+            if not ((fl['uvk'] and any(p['k'] == 'vkw' for p in o)) or (fl['uva'] and any(p['k'] == 'var' for p in o))):
+                fl = dict(fl, uva=True, uvk=True)
+            src = progs.render_forwarding(o, i, fl, base)
+            progs.drop_cache(fname)
+            g, fname = progs.compile_module(src)
+            fn, plain_target = g['w'], g['w']
+            codes = {fn.__code__} | {c for c in fn.__code__.co_consts if hasattr(c, 'co_code')}
+            nomodel = True
         elif base == 'auto_class_call':
             fn, plain_target = g['K'], g['K']
             codes = {g['K'].__call__.__code__, g['K'].__init__.__code__}
